@@ -135,6 +135,9 @@ func MakeEncodedCompArray() [256]byte {
 	compArray[EA['n']] = EA['n']
 	compArray[EA['?']] = EA['?']
 	compArray[EA['-']] = EA['-']
+	// '-' as the hardGaps readers encode it
+	HG := encoding.MakeEncodingArrayHardGaps()
+	compArray[HG['-']] = HG['-']
 
 	return compArray
 }
